@@ -265,3 +265,35 @@ WITNESSES += [
     dict(id="c10-f35-kept-only-current", prop="C10", file=S, expect="R10b", edits=[
         (_F35_C, "                    if other_term_i == term_i or \\\n                            other_term_i in removed_terms:\n")]),
 ]
+
+# ---------------------------------------------------------------------------- round 5: grouping of the terms by key
+_IMP = ("from collections import defaultdict\n", "from collections import defaultdict\nfrom itertools import groupby\nfrom sympy import Add\n")
+_TB_HEAD = ("    ret = {}\n    for term in expr.terms:\n        t_blocks = []\n        for tensor in term.tensors:\n            if tensor.name != t_name:\n",
+            "    def tensor_blocks(term: e.Term) -> tuple[str]:\n        t_blocks = []\n        for tensor in term.tensors:\n"
+            "            if tensor.name != t_name:\n")
+_TB_TAIL_OLD = ("        t_blocks = tuple(sorted(t_blocks))\n        if not t_blocks:\n            t_blocks = (\"none\",)\n"
+                "        if t_blocks not in ret:\n            ret[t_blocks] = e.Expr(0, **term.assumptions)\n        ret[t_blocks] += term\n")
+_TB_KEY = "        if not t_blocks:\n            return (\"none\",)\n        return tuple(sorted(t_blocks))\n\n    ret = {}\n"
+WITNESSES += [
+    # groupby over the terms in their given order: runs of equal keys overwrite each other (seed C10-11)
+    dict(id="c10-groupby-unsorted", prop="C10", file=S, expect="R10b", edits=[_IMP, _TB_HEAD, (
+        _TB_TAIL_OLD, _TB_KEY +
+        "    for t_blocks, terms in groupby(expr.terms, key=tensor_blocks):\n"
+        "        ret[t_blocks] = e.Expr(Add(*(term.sympy for term in terms)),\n                               **expr.assumptions)\n")]),
+    # the same with the terms sorted by their key first: every key forms one run
+    dict(id="c10-ok-groupby-sorted", prop="C10", file=S, expect=None, edits=[_IMP, _TB_HEAD, (
+        _TB_TAIL_OLD, _TB_KEY +
+        "    for t_blocks, terms in groupby(sorted(expr.terms, key=tensor_blocks),\n                                   key=tensor_blocks):\n"
+        "        ret[t_blocks] = e.Expr(Add(*(term.sympy for term in terms)),\n                               **expr.assumptions)\n")]),
+    # collect the terms per key (setdefault / append), build every part at once
+    dict(id="c10-ok-collect-then-build", prop="C10", file=S, expect=None, edits=[_IMP, _TB_HEAD, (
+        _TB_TAIL_OLD, _TB_KEY +
+        "    collected = {}\n    for term in expr.terms:\n        collected.setdefault(tensor_blocks(term), []).append(term.sympy)\n"
+        "    for t_blocks, summands in collected.items():\n        ret[t_blocks] = e.Expr(Add(*summands), **expr.assumptions)\n")]),
+    # runs that meet an existing key are added to it: lossless as well
+    dict(id="c10-ok-groupby-accumulate", prop="C10", file=S, expect=None, edits=[_IMP, _TB_HEAD, (
+        _TB_TAIL_OLD, _TB_KEY +
+        "    for t_blocks, terms in groupby(expr.terms, key=tensor_blocks):\n"
+        "        if t_blocks not in ret:\n            ret[t_blocks] = e.Expr(0, **expr.assumptions)\n"
+        "        for term in terms:\n            ret[t_blocks] += term\n")]),
+]
